@@ -516,6 +516,8 @@ def run_c19(ctx):
             v['kind'] = 'skip'
             v['sid'] = '%s-%s' % (s['sid'], pr.replace(':', ''))
             scs.append(v)
+    if scs:
+        scs[0] = dict(scs[0], run=dict(scs[0].get('run') or {}, api='longskip'))     # one scenario also runs the long skipped runs
     return pipeline(
         ctx, 'Mon_C19', 'skip', scs,
         rule='scenario = well-formed stream x skip predicate {all, none, pusi, nopusi, cc even, rai flag, has AF, random per packet, by PID}; each '
